@@ -269,12 +269,14 @@ def parseDecimal (s : Str) : Option (Nat × Nat) :=     -- (all digits as one nu
     else some (digitsVal (ip ++ fp), fp.length)
   | _ => none
 
+def trimWs (s : Str) : Str := ((s.dropWhile isXmlWs).reverse.dropWhile isXmlWs).reverse
+
+def splitSign (t : Str) : Bool × Str := match t with | '-' :: r => (true, r) | _ => (false, t)
+
 def parseNum (s : Str) : Bits :=
-  let t := (s.dropWhile isXmlWs).reverse.dropWhile isXmlWs |>.reverse
-  let (neg, body) := match t with | '-' :: r => (true, r) | _ => (false, t)
-  match parseDecimal body with
+  match parseDecimal (splitSign (trimWs s)).2 with
   | none => nanBits
-  | some (n, f) => ofRat neg n (10 ^ f)
+  | some (n, f) => ofRat (splitSign (trimWs s)).1 n (10 ^ f)
 
 /-- canonical text of a bit pattern for the line protocol (all NaNs are one value) -/
 def canonBits (b : Bits) : Bits := if isNaN b then nanBits else b
